@@ -67,7 +67,9 @@ impl FunctionMarkupPass {
 
                 let inst = With::new(JumpLinkType::Jal, info.clone());
                 let rd = With::new(Register::X0, info.clone());
-                let name = With::new(LabelString::new("__return__"), info.clone());
+                // The name cannot be written as a label in a source file, so it
+                // never refers to a label (or function) of the program
+                let name = With::new(LabelString::new("<return>"), info.clone());
                 let new_node =
                     ParserNode::new_jump_link(inst, rd, name, prev_ret.node().token().clone());
                 #[allow(unused_must_use)]
